@@ -34,6 +34,14 @@ def make_case(seed, k, mode):
     rng = random.Random(f"{seed}:{k}:{mode}")
     flags = mode == "flags"
     g = gen.gen_grammar(rng, flags=flags, excl=flags and rng.random() < 0.6)
+    if flags:
+        tg = {}
+        for r in g["rules"]:
+            if r["def"][0] == "alt" and rng.random() < 0.6:
+                tg[r["name"]] = [rng.randint(0, 1) for _ in range(rng.randint(0, 3))] + [r["def"][1]]
+            elif r["def"][0] != "alt" and rng.random() < 0.2:
+                tg[r["name"]] = [1, 0, 1]      # the setter must ignore rules whose definition is not an alternation
+        g["toggles"] = tg
     inputs = gen.gen_inputs(rng, g)
     return {"seed": seed, "index": k, "mode": mode, "grammar": g, "inputs": inputs}
 
@@ -95,6 +103,11 @@ def run_cases(cases, want_parse=True):
             lines.append(None)
             continue
         keep.append(cls)
+        bad = pyimpl.check_graph(g, objs)
+        if bad:
+            meta.append((c, "build", None, None, None, "GRAPH:" + "; ".join(bad)[:500]))
+            lines.append(None)
+            continue
         stats["grammars"] += 1
         for k, v in gen.count_ops(g).items():
             stats["ops"][k] = stats["ops"].get(k, 0) + v
